@@ -334,8 +334,8 @@ def balanced_lloyd_cluster(G, centers, maxiter=5, rebalance_iters=5, tiebreaking
         G = np.abs(G)
 
     if G.nnz > 0:
-        if G.data.min() < 0:
-            raise ValueError('Lloyd Clustering is defined only for positive weights.')
+        if G.data.min() <= 0:
+            raise ValueError('Balanced Lloyd Clustering is defined only for positive weights.')
 
     if np.isscalar(centers):
         centers = np.random.permutation(n)[:centers]  # same as np.random.choice()
